@@ -9,7 +9,8 @@ correspondence: histories in which ~40 % of the calls are designed to fail, run 
 oracle:         deep snapshot of the real objects (every node's links / children / attributes / data, the whole
                 document tree from the top node, getElementsByType for six factories, getStyleByName for every name
                 used) taken before every call and compared after every call that raised; a refused element must
-                not be reachable anywhere
+                not be reachable anywhere; in addition every factory function of the library (all wrapper factories that act
+                before / after Element.__init__, a sample of the plain ones) is called with parent= in 11 calling conventions
 """
 import json
 import dom_common as D
@@ -42,11 +43,13 @@ def deep_snapshot(w, style_names):
                         [walk(c, depth + 1) for c in n.childNodes]]
             return ['T', id(n), n.nodeType, n.data]
         snap['tree'] = walk(w.doc.topnode, 0)
-        for f in QUERY_FACTORIES:
-            snap['byType ' + f] = [id(e) for e in w.doc.getElementsByType(D.factory(f))]
+        # name lookups first: on a document without styles each of them rebuilds the element index (document order);
+        # taken in this order the snapshot is idempotent, so a difference is the doing of the call under test
         for nm in sorted(style_names):
             s = w.doc.getStyleByName(nm)
             snap['style ' + nm] = None if s is None else id(s)
+        for f in QUERY_FACTORIES:
+            snap['byType ' + f] = [id(e) for e in w.doc.getElementsByType(D.factory(f))]
     return snap
 
 
@@ -87,8 +90,9 @@ class Gen(object):
             ops.append(['new', 'e', self.fresh(), '@docstyles'])
         for f in ['Section', 'P', 'Span', 'H', 'List', 'P']:
             ops.append(['new', 'e', self.fresh(), f])
+        ops.append(['new', 't', self.fresh(), u''])           # an empty text node
         ops.append(['new', 't', self.fresh(), None])
-        ops.append(['new', 'c', self.fresh(), None])
+        ops.append(['new', 'c', self.fresh(), u'' if (self.rng and self.rng.random() < 0.5) else None])
         for op in ops:
             if op[1] == 'e':
                 self.fname[op[2]] = op[3]
@@ -129,7 +133,7 @@ class Gen(object):
                 if self.movable(p, c) and self.would_allow(p, self.qname(c)): return ['adde', p, c]
             elif k in ('addt', 'addc'):
                 P = [p for p in E if self.allows_text(p)]
-                if P: return [k, r.choice(P), self.fresh(), r.choice([u'x', u'', u'a b']) if k == 'addt' else u'cd']
+                if P: return [k, r.choice(P), self.fresh(), r.choice([u'x', u'', u'a b']) if k == 'addt' else r.choice([u'cd', u''])]
             elif k == 'append':
                 p = r.choice(E); c = r.choice(E + T)
                 if self.movable(p, c): return ['append', p, c]
@@ -376,12 +380,135 @@ def report(chk, h):
     chk.fail(sig, {'attached': h.attached, 'ops': ops}, detail)
 
 
+# ---------------------------------------------------------------------------------------------
+# every factory function of the library, called with parent= in all calling conventions (oracle only: the
+# wrapper factories StyleElement / DrawElement / StyleRefElement act before or after Element.__init__)
+FACTORY_MODULES = ['anim', 'chart', 'config', 'dc', 'dr3d', 'draw', 'form', 'manifest', 'math', 'meta', 'number', 'office',
+                   'presentation', 'script', 'style', 'svg', 'table', 'text', 'xforms']
+WRAPPERS = ('StyleElement', 'DrawElement', 'StyleRefElement')
+CANDIDATE_VALUES = [u'n1', u'1', u'true', u'paragraph', u'1cm', u'simple', u'#000000', u'string', u'2020-01-01', u'a/b', u'0 0 1 1']
+
+
+def all_factories():
+    import importlib, types
+    out = []
+    for m in FACTORY_MODULES:
+        try:
+            mod = importlib.import_module('odf.' + m)
+        except ImportError:
+            continue
+        for name, f in sorted(vars(mod).items()):
+            if isinstance(f, types.FunctionType) and f.__module__ == mod.__name__ and name[:1].isupper() and name not in WRAPPERS:
+                out.append((m, name, f, any(w in f.__code__.co_names for w in WRAPPERS)))
+    return out
+
+
+def required_kwargs(f):
+    from odf import grammar
+    from odf.attrconverters import AttrConverters
+    probe = f(check_grammar=False)
+    kw = []
+    for key in (grammar.required_attributes.get(probe.qname) or ()):
+        val = u'x'
+        for v in CANDIDATE_VALUES:
+            try:
+                AttrConverters().convert(key, v, probe); val = v; break
+            except Exception:
+                continue
+        kw.append((key[1].lower().replace('-', ''), val))
+    return probe.qname, kw
+
+
+def variants(req, par):
+    r = dict(req)
+    named = dict(r); named.setdefault('name', u'n1')
+    return [
+        ('kw', lambda f: f(parent=par, **r)),
+        ('attributes', lambda f: f(attributes=dict(r, parent=par))),
+        ('kw+attributes', lambda f: f(parent=par, attributes=dict(r))),
+        ('bare', lambda f: f(parent=par)),
+        ('kw nogrammar', lambda f: f(parent=par, check_grammar=False, **r)),
+        ('attributes nogrammar', lambda f: f(attributes=dict(r, parent=par), check_grammar=False)),
+        ('kw bogus', lambda f: f(parent=par, bogus=u'1', **r)),
+        ('kw named', lambda f: f(parent=par, **named)),
+        ('attributes named', lambda f: f(attributes=dict(named, parent=par))),
+        ('kw named displayname', lambda f: f(parent=par, displayname=u'd', **named)),
+        ('attributes named nogrammar', lambda f: f(attributes=dict(named, parent=par), check_grammar=False)),
+    ]
+
+
+def doc_snapshot(doc, f):
+    def walk(n, depth):
+        if depth > 50: return ['DEEP']
+        if n.nodeType == 1:
+            return [id(n), n.qname, sorted((k, v) for k, v in n.attributes.items()), [walk(c, depth + 1) for c in n.childNodes]]
+        return [id(n), n.data]
+    snap = {'tree': walk(doc.topnode, 0)}
+    for nm in (u'n1', u'Nope'):
+        st = doc.getStyleByName(nm)
+        snap['style ' + nm] = None if st is None else id(st)
+    try:
+        snap['byType'] = [id(e) for e in doc.getElementsByType(f)]
+    except Exception as e:
+        snap['byType'] = 'raises %s' % type(e).__name__
+    return snap
+
+
+def wrapper_call(mod, name, label):
+    """one factory call with parent=; returns None, or (detail) when a raising call changed the document"""
+    import importlib
+    from odf.opendocument import OpenDocumentText
+    from odf.element import Element
+    f = getattr(importlib.import_module('odf.' + mod), name)
+    try:
+        qname, req = required_kwargs(f)
+    except Exception:
+        return None
+    doc = OpenDocumentText()
+    par = Element(qname=(u'urn:verif:any', u'any'), check_grammar=False)    # no grammar entry: accepts any child
+    doc.text.appendChild(par)
+    call = dict(variants(req, par))[label]
+    before = doc_snapshot(doc, f)
+    try:
+        call(f)
+        return None
+    except RecursionError:
+        raise
+    except Exception as e:
+        after = doc_snapshot(doc, f)
+        d = first_difference(before, after)
+        if d is not None:
+            return '%s.%s(%s) raised %s: %s -- but %r changed (the refused element is in the document)' % (
+                mod, name, label, type(e).__name__, e, d)
+    return None
+
+
+def wrapper_factories(chk):
+    facs = all_factories()
+    if chk.tier != 'thorough':
+        rest = [x for x in facs if not x[3]]
+        chk.rng.shuffle(rest)
+        facs = [x for x in facs if x[3]] + rest[:120]
+    labels = [l for l, _ in variants([], None)]
+    for mod, name, f, wrapped in facs:
+        for label in labels:
+            chk.count('factory_call'); chk.count('factory_call_wrapper' if wrapped else 'factory_call_plain')
+            detail = wrapper_call(mod, name, label)
+            chk.case(('factory', mod, name, label), nontrivial=True)
+            if detail:
+                chk.fail('changed-by-refused:factory+parent', {'wrapper': [mod, name, label]}, detail)
+
+
 def run(chk, replay=None):
     chk.rule = ('histories of <= 14 calls on 6 elements + 2 text nodes (attached to a document or free-standing) in which '
                 '~40 % of the calls are designed to fail: every refusal kind (missing required attribute, unknown attribute, '
                 'invalid value, illegal text/cdata, illegal child, not-a-child reference, childless parent) x every entry point '
                 '(factory with and without parent=, addElement, addText, addCDATA, setAttribute, setAttrNS, removeAttribute, '
                 'insertBefore, removeChild, appendChild); non-trivial = history with at least one raising call')
+    if replay is not None and 'wrapper' in replay['input']:
+        detail = wrapper_call(*replay['input']['wrapper'])
+        print('replay: %s -> %s' % (replay['input']['wrapper'], detail))
+        return 1 if detail else 0
     if replay is not None:
         inp = replay['input']
         h = replay_ops(inp['attached'], inp['ops'])
@@ -423,6 +550,8 @@ def run(chk, replay=None):
         chk.count('history_attached' if attached else 'history_free'); chk.count('raising_calls', h.raised)
         if h.failed:
             report(chk, h)
+    # ---- every factory function with parent=, all calling conventions
+    wrapper_factories(chk)
     # ---- systematic: every designed-to-fail call in every state of short histories
     depth = 2 if thorough else 1
     nstates = 0
